@@ -2951,7 +2951,8 @@ class Qube(object):
         self.require_writable()
 
         # Handle a simple right-hand value...
-        if self._rank_ == 0 and isinstance(arg, (numbers.Real, np.ndarray)):
+        if (self._rank_ == 0 and isinstance(arg, (numbers.Real, np.ndarray))
+            and not isinstance(arg, np.ma.MaskedArray)):
             self._require_inplace_shape(np.shape(arg), '+=')
             self._values_ += arg
             self._new_values_()
@@ -3073,7 +3074,8 @@ class Qube(object):
         self.require_writable()
 
         # Handle a simple right-hand value...
-        if self._rank_ == 0 and isinstance(arg, (numbers.Real, np.ndarray)):
+        if (self._rank_ == 0 and isinstance(arg, (numbers.Real, np.ndarray))
+            and not isinstance(arg, np.ma.MaskedArray)):
             self._require_inplace_shape(np.shape(arg), '-=')
             self._values_ -= arg
             self._new_values_()
